@@ -276,7 +276,9 @@ def gen_block(R):
         return R.choice(["", " ", "  "])
 
     def word():
-        return R.choice(["a", "b1", "x-y", "k_2", "é", "1", "true", "~", "a:b", "a#b", "-x", "?q", "!t", "&a", "*a", "%d", "@at", "`bt", "[l", "{m", "]", "}", ",c", "a:", "::", "\t", "a\tb", "\u2028", "\x85"])
+        return R.choice(["a", "b1", "x-y", "k_2", "é", "1", "true", "~", "a:b", "a#b", "-x", "?q", "!t", "&a", "*a", "%d", "@at", "`bt", "[l", "{m", "]", "}", ",c", "a:", "::", "\t", "a\tb", "\u2028", "\x85",
+                         # characters that are blank for a regex \\s / str.isspace() but ordinary characters for YAML
+                         "10\u00a0km", "Mount\u3000Fuji", "thin\u2009sp", "nn\u202fbsp", "og\u1680ham", "ms\u205fp", "\u00a0", "zw\u200bsp", "bom\ufeffx", "日本", "😀"])
 
     def plain_line():
         return " ".join(word() for _ in range(R.randint(1, 3)))
